@@ -101,7 +101,12 @@ func (exif *Exif) parse(p property) (err error) {
 	case xmpns.GPSLongitude:
 		exif.GPSLongitude = parseGPSCoordinate(p.Value())
 	case xmpns.GPSAltitude:
-		exif.GPSAltitude = float32(parseFloat64(p.Value()))
+		// a Rational, "n/d" (a plain decimal number is accepted as before)
+		if n, d := parseRational(p.Value()); d != 0 {
+			exif.GPSAltitude = float32(float64(n) / float64(d))
+		} else {
+			exif.GPSAltitude = float32(parseFloat64(p.Value()))
+		}
 	//case xmpns.Flash:
 	default:
 		return ErrPropertyNotSet
